@@ -322,7 +322,9 @@ def run(ctx):
     ctx.cov["correspondence_runs_with_limit_verdict"] = n_limit
 
     # ------------------------------------------------------------------ sandboxed-test (shared budget)
-    sb = loops[:ctx.scale(3, 60)] + files[:ctx.scale(2, 40)]
+    probe = ([], [("a_loop", "test a_loop {\n  let i = 0\n  while True { i += 1 }\n}\n"),
+                  ("b_ok", "test b_ok {\n  assert(True)\n}\n")], ["loop", "pass"])
+    sb = [probe] + loops[:ctx.scale(3, 60)] + files[:ctx.scale(2, 40)]
 
     def run_sb(item):
         funs, tests, kinds = item
